@@ -3,7 +3,8 @@
     [Print Assumptions].  Model: coq/Trie/Model.v (mirrors pkg/trie/trie.go after the F1
     repair); hash layer parametric in the hash function [H]. *)
 From Coq Require Import List Bool Arith NArith.
-From Verif Require Import Trie.Model Trie.Basics Trie.Masc Trie.GetUpdate Trie.Canon Trie.History Trie.HashBind.
+From Verif Require Import Trie.Model Trie.Basics Trie.Masc Trie.GetUpdate Trie.Canon Trie.History Trie.HashBind
+  Trie.Store Trie.StoreProofs.
 Import ListNotations.
 
 (** Map semantics of one Update: Get of any key returns the batch's value for it (None for
@@ -102,3 +103,36 @@ Theorem C10_split_keys_partition :
   sorted b -> split_keys b = (filter (bit_is false) b, filter (bit_is true) b).
 Proof. exact @split_keys_sorted. Qed.
 Print Assumptions C10_split_keys_partition.
+
+(** ---- persistence (Store.v: content-addressed node store that only grows; the 4-level
+    batch serialisation is abstracted) ---- *)
+
+(** commit_monotone: entries already in the store are not changed by later commits. *)
+Theorem C10_commit_monotone :
+  forall (s s' : store) x n, lookup s x = Some n -> lookup (s ++ s') x = Some n.
+Proof. exact commit_monotone. Qed.
+Print Assumptions C10_commit_monotone.
+
+(** old_root_readable: a root that opens to a tree keeps opening to the same tree after any
+    further commits (every H; no collision caveat needed). *)
+Theorem C10_old_root_readable :
+  forall (s s' : store) x t, open_root s x = Some t -> open_root (s ++ s') x = Some t.
+Proof. exact old_root_readable_open. Qed.
+Print Assumptions C10_old_root_readable.
+
+(** Commit keeps the store content-addressed. *)
+Theorem C10_commit_keeps_store_ok :
+  forall (H : bytes -> bytes) s t,
+  store_ok H s -> wf 256 t -> vals32 t -> store_ok H (commit H s t).
+Proof. exact commit_ok. Qed.
+Print Assumptions C10_commit_keeps_store_ok.
+
+(** reopen_equal: after Commit (and after any later growth of a content-addressed store) a
+    fresh instance opened at the committed root holds exactly the committed tree, unless H
+    is broken. *)
+Theorem C10_reopen_equal :
+  forall (H : bytes -> bytes), (forall x, length (H x) = 32) ->
+  forall s s' t, store_ok H s -> wf 256 t -> vals32 t -> store_ok H (commit H s t ++ s') ->
+  open_root (commit H s t ++ s') (root H 256 t) = Some t \/ hash_break H.
+Proof. exact reopen_after_commit. Qed.
+Print Assumptions C10_reopen_equal.
